@@ -67,7 +67,9 @@ def catalogue():
         ('xs:dayTimeDuration("-P1D")', ('dtd', (0, Fraction(-86400)))), ('xs:dayTimeDuration("PT0.5S")', ('dtd', (0, Fraction(1, 2)))), ('xs:dayTimeDuration("P30D")', ('dtd', (0, Fraction(30 * 86400)))),
         ('xs:QName("p:a")', ('qname', ('urn:p', 'a'))), ('xs:QName("q:a")', ('qname', ('urn:p', 'a'))), ('xs:QName("a")', ('qname', ('', 'a'))), ('xs:QName("p:b")', ('qname', ('urn:p', 'b'))),
         ('xs:hexBinary("00")', ('hex', b'\x00')), ('xs:hexBinary("0a")', ('hex', b'\x0a')), ('xs:hexBinary("0A")', ('hex', b'\x0a')), ('xs:hexBinary("")', ('hex', b'')),
-        ('xs:base64Binary("AA==")', ('b64', b'\x00')), ('xs:base64Binary("Cg==")', ('b64', b'\x0a')),
+        ('xs:base64Binary("AA==")', ('b64', b'\x00')), ('xs:base64Binary("Cg==")', ('b64', b'\x0a')), ('xs:base64Binary("AAA=")', ('b64', b'\x00\x00')),
+        ('xs:base64Binary("AAAA")', ('b64', b'\x00\x00\x00')), ('xs:base64Binary("YQ==")', ('b64', b'a')), ('xs:base64Binary("YWJj")', ('b64', b'abc')),
+        ('xs:base64Binary("")', ('b64', b'')), ('xs:hexBinary("0000")', ('hex', b'\x00\x00')), ('xs:hexBinary("FF")', ('hex', b'\xff')),
     ]
     return c
 
@@ -84,7 +86,7 @@ def plan(tier, seed):
     units += [{'kind': 'general', 'part': q, 'nparts': 32} for q in range(32)]
     if tier != 'quick':
         units += [{'kind': 'general3', 'part': q, 'nparts': 32} for q in range(32)]
-    units += [{'kind': 'xpath10'}, {'kind': 'ebv'}, {'kind': 'logic'}]
+    units += [{'kind': 'xpath10'}, {'kind': 'ebv'}, {'kind': 'logic'}, {'kind': 'timezones'}]
     return {
         'units': units,
         'bounds': {'catalogue': n, 'general_core': len(CORE), 'general_sequences': nseq, 'operators': 6, 'implicit_timezone': '-05:00'},
@@ -398,6 +400,53 @@ def run_logic(unit, tier, acc):
 CORE3 = ['1', '2', 'xs:double("NaN")', "'a'", 'xs:untypedAtomic("1")', 'xs:untypedAtomic("a")', 'true()', 'xs:date("2000-01-01")']
 
 
+def run_timezones(unit, tier, acc):
+    """the same value objects compared under a sequence of different implicit timezones: every comparison must follow the timezone of
+    ITS context (an operand modified in place by an earlier comparison shows here) and the operands must stay unchanged"""
+    from elementpath import XPathContext, ElementPathError
+    S = setup()
+    tzseq = [('-05:00', -300), ('+10:00', 600), ('Z', 0), ('-05:00', -300)]
+    vals = [(src, mv) for src, mv in S['cat'] if mv[0] in ('dateTime', 'date', 'time') + M.GREG]
+    toks = {}
+    for (sa, ma), (sb, mb) in itertools.product(vals, repeat=2):
+        if ma[0] != mb[0]:
+            continue
+        # fresh objects for this pair, reused across the whole timezone sequence and all operators
+        oa = S['p'].parse(sa).evaluate(XPathContext(root=None, item=1))
+        ob = S['p'].parse(sb).evaluate(XPathContext(root=None, item=1))
+        before = (str(oa), str(ob))
+        acc.case(ma[1][1] is None or mb[1][1] is None)
+        for tzs_, tzm in tzseq:
+            for op in M.OPS + list(M.GENERAL):
+                if op in M.OPS:
+                    want = M.value_compare(op, ma, mb, tzm)
+                else:
+                    w = M.general_compare(op, [ma], [mb], tzm, S['casts'])
+                    want = next(iter(w)) if w and len(w) == 1 else None
+                if want is None or want[0] != 'val':
+                    continue
+                src = '$a %s $b' % op
+                tok = toks.get(src)
+                if tok is None:
+                    tok = toks[src] = S['p'].parse(src)
+                try:
+                    got = ('val', tok.evaluate(XPathContext(root=None, item=1, variables={'a': oa, 'b': ob}, timezone=tzs_)))
+                except ElementPathError as e:
+                    got = ('err', (e.code or '').split(':')[-1])
+                except Exception as e:  # noqa
+                    got = ('escape', type(e).__name__)
+                acc.ev()
+                acc.cmp()
+                if got != want:
+                    acc.violation('C07|comparison-under-changing-implicit-timezone|%s|%s' % (ma[0], 'value' if op in M.OPS else 'general'),
+                                  '%s %s %s with implicit timezone %s after earlier comparisons of the same objects' % (sa, op, sb, tzs_),
+                                  {'expected': repr(want), 'observed': repr(got)}, {'kind': 'timezones'})
+                    break
+        if (str(oa), str(ob)) != before:
+            acc.violation('C07|operand-modified-by-comparison|%s' % ma[0], '%s, %s' % (sa, sb), {'before': before, 'after': (str(oa), str(ob))}, {'kind': 'timezones'})
+    acc.sample({'sequence_of_implicit_timezones': [t for t, _ in tzseq], 'expression': '$a eq $b', 'rule': 'same objects, each context decides'})
+
+
 def run_unit(unit, tier, acc):
     k = unit['kind']
     if k == 'value':
@@ -410,6 +459,8 @@ def run_unit(unit, tier, acc):
         run_xpath10(unit, tier, acc)
     elif k == 'ebv':
         run_ebv(unit, tier, acc)
+    elif k == 'timezones':
+        run_timezones(unit, tier, acc)
     else:
         run_logic(unit, tier, acc)
 
@@ -427,5 +478,7 @@ def replay(case, acc):
         run_xpath10({}, 'quick', acc)
     elif k == 'ebv':
         run_ebv({}, 'quick', acc)
+    elif k == 'timezones':
+        run_timezones({}, 'quick', acc)
     else:
         run_logic({}, 'quick', acc)
